@@ -127,6 +127,7 @@ pub fn property(_ctx: &Ctx) -> Property {
         assumptions: &[],
         subs: vec![
             sub::<Case, _, _>("history", 1600, 60000, |c| (program_strategy(STORAGE, if c.thorough() { 100 } else { 40 }, 4, 4), Just(0u8), any::<u64>()), check),
+            sub::<Case, _, _>("counters", 1200, 40000, |c| (program_strategy(COUNTER, if c.thorough() { 100 } else { 40 }, 4, 4), Just(0u8), any::<u64>()), check),
             sub::<Case, _, _>("bulk", 160, 6000, |c| (program_strategy(STORAGE, if c.thorough() { 60 } else { 25 }, 3, 4), 2u8..6, any::<u64>()), check),
         ],
     }
